@@ -340,7 +340,8 @@ PROPS["C06"] = dict(
     level_text="decided per call: every byte string given as page is refused with an error unless it has 72 bytes (Verus, any length) and every 72-byte string decodes "
                "without trap to (tip hash, height, outpoint) with to_bytes its inverse (Kani, all 2^576 inputs); the tip named by a page is looked up in the unstable tree "
                "and the walked chain is exactly the branch from the anchor to it, None (=> UnknownTipBlockHash) iff it is not in the tree (Verus, all trees); resuming "
-               "from an offset cuts the stable key range exactly at the offset key and the unstable source by Utxo order (Kani, bounded address text)",
+               "from an offset cuts the stable key range exactly at the offset key and the unstable source by Utxo order, and the two orders agree (Utxo::cmp = byte order of the stable "
+               "encoding, Kani complete), so an offset keeps its meaning when a block stabilises between two pages (Kani, bounded address text)",
     level_note="NOT decided: the page cut itself (take(limit+1) / split_off / next_page built from the first omitted element) is a closure pipeline; the interleaving "
                "quantifier (blocks arriving, stabilisation, upgrades between pages) rests on C01's unverified ledger refinement",
     explanation="see coverage.bounded for the harnesses with bounded address text.",
@@ -349,5 +350,6 @@ PROPS["C06"] = dict(
         "get_utxos_internal's page branch glue (map_err / ok_or): by inspection",
         "interleavings of page requests with ingestion, stabilisation and upgrades",
     ],
+    replays=[_rp("f9_pages_are_one_snapshot_across_stabilisation", "F9")],
     assumptions=COMMON_ASSUMPTIONS,
 )
